@@ -25,6 +25,7 @@ NL = "chiritori/src/code/formatter/next_line_break_remover.rs"
 FA = "chiritori/src/code/remover/marker/factory.rs"
 CLI = "chiritori-cli/src/main.rs"
 LM = "chiritori/src/code/utils/line_map.rs"
+BC = "chiritori/src/code/utils/blank_counter.rs"
 
 C = []
 
@@ -286,6 +287,7 @@ mut("c17-squash-strict-end-regression", "C17", "C17.R4", (RM, "range.contains(&p
 mut("c10-closer-strips-every-slash-regression", "C10", "C10.R6", (PA, 'let pair_name = el.name.strip_prefix("/").unwrap_or(el.name);', 'let pair_name = el.name.trim_start_matches("/");'), (PA, 'if el.name == end_el.name.strip_prefix("/").unwrap_or(end_el.name) {', 'if el.name == end_el.name.trim_start_matches("/") {'))
 mut("c16-find-line-break-on-next-line-regression", "C16", "C16.R7", (LM, "position(|v| *v >= needle)", "position(|v| *v > needle)"))
 mut("c09-cr-not-separator-regression", "C09", "C09.R1", (EP, "State::NameEnd => match current_char {\n                                ' ' | '\\n' | '\\r' => {}", "State::NameEnd => match current_char {\n                                ' ' | '\\n' => {}"))
+mut("c01-recursive-tab-count", "C01", "C01.REC", (BC, "pub fn count_tabspace(s: &str) -> usize {\n    s.chars()\n        .fold(0, |acc, v| if v == '\\t' { acc + 1 } else { acc })\n}", "pub fn count_tabspace(s: &str) -> usize {\n    match s.chars().next() {\n        None => 0,\n        Some(c) => usize::from(c == '\\t') + count_tabspace(&s[c.len_utf8()..]),\n    }\n}"))
 
 # ---------------------------------------------------------------- C11
 mut("c11-two-lines-regression", "C11", "C11.R2", (UB, "if start >= end {", "if start > end {"))
@@ -440,6 +442,25 @@ rmut("rf-rem-r2-4+struct-drops-ready-children", "rem-r2-4", "C03", "C03.R", (RM,
 rmut("rf-tok-r2-4+struct-counter-by-two", "tok-r2-4", "C07", "C07.R", (TK, "            scan.current += 1;", "            scan.current += 2;"))
 rmut("rf-tok-r2-4+struct-start-not-reset", "tok-r2-4", "C07", "C07.R", (TK, "                scan.start_pos = scan.current;\n", ""))
 rmut("rf-lst-r2-4+no-color-constant-colours", "lst-r2-4", "C16", "C16.R2", (LS, '    highlight: "",\n', '    highlight: "*",\n'))
+
+# round 5 (ordinary maintenance commits): defects in the tidied forms are still reported
+rmut("rf-blk-r5-3+byte-map-records-cr", "blk-r5-3", "C16", "C16.R7", (LM, ".filter(|&(_, b)| b == b'\\n')", ".filter(|&(_, b)| b == b'\\r')"))
+rmut("rf-lst-r5-2+named-last-pos-off-by-one", "lst-r5-2", "C16", "C16.R", (LS, "    let last_pos = end - 1;", "    let last_pos = end;"))
+rmut("rf-rem-r5-2+named-position-unshifted", "rem-r5-2", "C14", "C14.R8", (RM, "let start_after_removal = marker.start - removed_len;", "let start_after_removal = marker.start;"))
+rmut("rf-rem-r5-3+range-one-longer", "rem-r5-3", "C15", "C15.R1", (RM, "new_content.replace_range(marker.start..marker.end, \"\");", "new_content.replace_range(marker.start..marker.end + 1, \"\");"))
+rmut("rf-cli-r5-1+lazy-default-is-epoch", "cli-r5-1", "C20", "C20.R1", (CLI, ".unwrap_or_else(|_| chrono::Local::now())", ".unwrap_or_else(|_| chrono::DateTime::<chrono::Local>::default())"))
+
+# round 6 (second round of maintenance commits)
+rmut("rf-fmt-r6-1+insert-one-too-far", "fmt-r6-1", "C01", "C01.OB", (FM, "let insert_at = cursor.map_or(0, |cursor| cursor + 1);", "let insert_at = cursor.map_or(0, |cursor| cursor + 2);"))
+rmut("rf-blk-r6-4+helper-does-not-clamp-end", "blk-r6-4", "C14", "C14.R4", (BI, "    let end = std::cmp::min(start + len, limit);\n\n    if start != end {", "    let end = start + len;\n\n    if start != end {"))
+rmut("rf-ep-r6-3+first-pair-skipped", "ep-r6-3", "C09", "C09.R1", (EP, "let (name, _) = pairs.next()?;", "pairs.next()?;\n            let (name, _) = pairs.next()?;"))
+rmut("rf-par-r6-3+lazy-default-drops-token", "par-r6-3", "C10", "C10.R1", (PA, "|| State::Content(vec![ContentPart::Text(Text { token: t })])", "|| State::Content(vec![])"))
+
+# round 7 (combined maintenance commits)
+rmut("rf-rem-r7-3+named-head-index-off-by-one", "rem-r7-3", "C12", "C12.R4", (RM, "let end_marker_pos = current + spliced.len() + 1;", "let end_marker_pos = current + spliced.len();"))
+rmut("rf-tokpar-r7-2+named-guard-inverted", "tokpar-r7-2", "C07", "C07.R6", (TK, "if !is_empty_token {", "if is_empty_token {"))
+rmut("rf-fmt-r7-2+helper-returns-line-break-itself", "fmt-r7-2", "C02", "C02.R", (IR, "LINE_BREAK => return Some(cursor + 1),", "LINE_BREAK => return Some(cursor.saturating_sub(1)),"))
+rmut("rf-rem-r7-2+while-let-skips-squash-end", "rem-r7-2", "C17", "C17.R4", (RM, "pending_range.end <= range.end", "pending_range.end < range.end"))
 
 with open(os.path.join(os.path.dirname(os.path.abspath(__file__)), "mutants.json"), "w") as f:
     json.dump(C, f, indent=1)
